@@ -222,6 +222,8 @@ def _classify(t, out: Set[tuple]) -> None:
             out.add(("PARAM", t.a[0]))
         return
     if op == "global":
+        if t.a[0].split(".")[0] in ("itertools", "operator", "functools", "builtins", "collections", "typing", "dataclasses"):
+            return              # pure plumbing of the standard library: what flows through it is classified from its arguments
         out.add(("EXT", t.a[0]))
         return
     if op == "lambda":
